@@ -117,7 +117,7 @@ def main():
       "setup_cmd": "cd /verif/ruxvc && GOFLAGS=-mod=mod GOPROXY=off GOSUMDB=off GOTOOLCHAIN=local go build -o /verif/bin/ruxvc .",
       "hooks": {
         "guard": "verif",
-        "enable": "go build -tags verif (the tag only adds comment-only contract files zz_verif_contracts.go and read-only accessors)",
+        "enable": "go build -tags verif (the tag only adds comment-only contract files zz_verif_contracts.go)",
         "baseline_off_cmd": "cd /repo && GOFLAGS=-mod=mod GOPROXY=off GOSUMDB=off go test -json -vet=off -count=1 -timeout 25m ./...",
         "source_commits": SOURCE_COMMITS,
         "add_only": True,
